@@ -1345,6 +1345,10 @@ class Path:
         """assume an instance of a proved lemma or of a recursive definition (nothing else may be assumed this way)"""
         node = ast.parse(expr.strip(), mode="eval").body
         ok = isinstance(node, ast.Call) and isinstance(node.func, ast.Name) and node.func.id in ("lemma_inst", "unfold")
+        if not ok and isinstance(node, ast.Call) and isinstance(node.func, ast.Name) and node.func.id == "forall" and node.args:
+            # forall(v, lo, hi, lemma_inst(...)): every instance of a proved lemma (sound: the lemma holds for all its parameters)
+            body = node.args[-1]
+            ok = isinstance(body, ast.Call) and isinstance(body.func, ast.Name) and body.func.id in ("lemma_inst", "unfold")
         if not ok:
             raise StaleContract("use-clause must be lemma_inst(...) or unfold(...): %s" % expr)
         self.assume(self.ev_spec(node, env))
@@ -1371,6 +1375,8 @@ class Path:
         iname, sname = "_i%d" % k, "_seq%d" % k
         self.env.locals[sname] = seq
         self.env.locals[iname] = V(z3.IntVal(0), INT)
+        for e in lc.uses_init:
+            self.assume_use(e, self.env.spec_view(old=self.entry))
         self.assert_invariants(lc, k, "init", s.lineno)
         self.havoc_for_loop(s, extra_names=[iname])
         self.env.locals[sname] = seq
@@ -1660,6 +1666,14 @@ class Path:
         raise Unsupported("unknown name %s at line %d" % (n.id, getattr(n, "lineno", 0)))
 
     def ev_Attribute(self, n, env):
+        # class-level attribute declared in the contract (FunRunner.WORK_QUEUE): one object shared by every instance, never rebound
+        if isinstance(n.value, ast.Name) and n.value.id in self.unit.classes and n.value.id not in env.locals \
+                and n.attr in getattr(self.unit.classes[n.value.id], "class_attrs", {}):
+            srt = self.unit.classes[n.value.id].class_attrs[n.attr]
+            c = V(z3.Const("clsattr!%s.%s" % (n.value.id, n.attr), z(srt)), srt)
+            if isinstance(srt, RefS):
+                self.assume(c.t > 0, z3.Select(self.entry.alloc if getattr(self, "entry", None) is not None else env.alloc, c.t))
+            return c
         # module constants
         if isinstance(n.value, ast.Name) and n.value.id == "math" and n.attr == "inf":
             return V(z3.IntVal(10 ** 18), INT) if False else self._inf()
@@ -2056,6 +2070,34 @@ class Path:
         self.lambdas[id(n)] = n
         return V(n, FunS([], ANY, "lambda"))
 
+    def fresh_objects(self, clsname, cfc, call, S, env):
+        """[Cls(args) for _ in S] with a trusted, effect-free constructor contract: len(S) pairwise distinct freshly allocated objects, each
+        satisfying the constructor's postconditions (arguments must not depend on the loop variable)"""
+        so = SeqS(RefS(clsname))
+        r = fresh("objs", so)
+        j = ops.qvar("jo")
+        Path._hc[0] += 1
+        a2 = z3.Const("alloc!o%d" % Path._hc[0], z3.ArraySort(z3.IntSort(), z3.BoolSort()))
+        idx = z3.Function("objidx!%d" % Path._hc[0], z3.IntSort(), z3.IntSort())
+        o = z3.Int("o!al")
+        rng = z3.And(0 <= j, j < seq_len(S.t))
+        self.assume(seq_len(r) == seq_len(S.t),
+                    z3.ForAll([o], z3.Implies(z3.Select(env.alloc, o), z3.Select(a2, o))),
+                    z3.ForAll([j], z3.Implies(rng, z3.And(seq_get(r, j) > 0, z3.Not(z3.Select(env.alloc, seq_get(r, j))),
+                                                         z3.Select(a2, seq_get(r, j)), idx(seq_get(r, j)) == j)), patterns=[seq_get(r, j)]))
+        old_alloc = env.alloc
+        env.alloc = a2
+        args = [self.ev(a, env.spec_view()) for a in call.args]
+        kwargs = {k.arg: k.value for k in call.keywords}
+        from .calls import bind_args
+        loc = dict(bind_args(self, cfc, args, kwargs, env))
+        loc["self"] = V(seq_get(r, j), RefS(clsname))
+        post = Env(loc, env.heap, env.alloc, spec=True, old=Env(dict(loc), dict(env.heap), old_alloc, spec=True))
+        post.binders = dict(env.binders)
+        for e, l in cfc.ensures_l:
+            self.assume(z3.ForAll([j], z3.Implies(rng, self.ev_spec(e, post).t), patterns=[seq_get(r, j)]))
+        return V(r, so)
+
     def ev_DictComp(self, n, env):
         """{k: e for k, v in M.items() if c}  (keys of a map: unique)   and   {k: e for k, ... in zip(K, ...)} (keys K[j], assumed
         pairwise distinct only where the contract says so: later duplicates win, as in Python)"""
@@ -2147,6 +2189,12 @@ class Path:
         g = n.generators[0]
         S = self.iter_seq(g.iter, env, getattr(n, "lineno", 0))
         self._last_iter_lazy = S.lazy
+        elt = n.elt
+        if not env.spec and not g.ifs and isinstance(elt, ast.Call) and isinstance(elt.func, ast.Name) and elt.func.id in self.unit.classes \
+                and elt.func.id not in env.locals:
+            cfc = self.eng.find_contract(elt.func.id, "__init__")
+            if cfc is not None and cfc.trusted and not cfc.modifies_l and not cfc.requires_l:
+                return self.fresh_objects(elt.func.id, cfc, elt, S, env)
         j = ops.qvar("jc")
         sub = Env(dict(env.locals), env.heap, env.alloc, True, env.old, env.result, env.yielded, dict(env.binders))
         saved = self.env
